@@ -165,7 +165,7 @@ theorem memo_no_default_diverges (fuel : Nat) (m : Memo Nat) (hm : m 0 = none) :
       = .error .fuel := by
   induction fuel with
   | zero => unfold eval; simp [hm]
-  | succ fuel ih => unfold eval; simp [hm, evalArgs, ih]
+  | succ fuel ih => unfold eval; simp [hm, evalArgs, ih, storeDefault, finishEval]
 
 /-! ## the on-stack guard alone -/
 
